@@ -16,10 +16,29 @@ struct Job { args: Vec<String>, stdin: Option<String>, /// cwd choices: None = a
     clock_dependent: bool, /// expected exact stdout, when the harness can compute it independently
     expect: Option<String>, label: String }
 
-fn run_env(job: &Job, tz: &str, lc: &str, cwd: &Path, extra: bool, now: u64) -> proc::Out {
+/// Unrelated environment, as profiles: 0 = none, 1 = terminal / tooling variables, 2 = everything GitHub Actions exports
+/// for a branch build, 3 = what GitLab CI, Jenkins, Azure Pipelines, Travis, CircleCI, Bitbucket, Buildkite, Drone,
+/// AppVeyor and packaging tools export (branch, tag, commit, build number, version overrides).
+const PROFILES: usize = 4;
+fn profile_env(p: usize) -> Vec<(&'static str, &'static str)> {
+    match p {
+        1 => vec![("COLUMNS", "1"), ("RUST_BACKTRACE", "1"), ("NO_COLOR", "1"), ("HOME", ""), ("TERM", "dumb"), ("LANGUAGE", "de:fr"), ("SOURCE_DATE_EPOCH", "1"), ("ZERV_TEST", "x"), ("CLICOLOR_FORCE", "1")],
+        2 => vec![("CI", "true"), ("GITHUB_ACTIONS", "true"), ("GITHUB_REF", "refs/heads/feature/login"), ("GITHUB_REF_NAME", "feature/login"), ("GITHUB_HEAD_REF", "feature/login"), ("GITHUB_BASE_REF", "main"),
+            ("GITHUB_REF_TYPE", "branch"), ("GITHUB_REF_PROTECTED", "false"), ("GITHUB_SHA", "0123456789abcdef0123456789abcdef01234567"), ("GITHUB_RUN_NUMBER", "77"), ("GITHUB_RUN_ID", "9000000001"), ("GITHUB_RUN_ATTEMPT", "2"),
+            ("GITHUB_EVENT_NAME", "pull_request"), ("GITHUB_WORKSPACE", "/nonexistent/work"), ("GITHUB_REPOSITORY", "o/r"), ("GITHUB_JOB", "build"), ("RUNNER_OS", "Linux"), ("GITHUB_WORKFLOW", "ci")],
+        3 => vec![("CI", "1"), ("GITLAB_CI", "true"), ("CI_COMMIT_REF_NAME", "topic"), ("CI_COMMIT_BRANCH", "topic"), ("CI_COMMIT_TAG", "v9.9.9"), ("CI_COMMIT_SHA", "fedcba9876543210fedcba9876543210fedcba98"), ("CI_COMMIT_SHORT_SHA", "fedcba98"),
+            ("CI_PIPELINE_IID", "5"), ("CI_COMMIT_TIMESTAMP", "2020-01-01T00:00:00Z"), ("JENKINS_URL", "http://j/"), ("BRANCH_NAME", "topic"), ("GIT_BRANCH", "origin/topic"), ("GIT_COMMIT", "fedcba9876543210fedcba9876543210fedcba98"), ("TAG_NAME", "v9.9.9"),
+            ("BUILD_NUMBER", "12"), ("TF_BUILD", "True"), ("BUILD_SOURCEBRANCH", "refs/heads/topic"), ("BUILD_SOURCEBRANCHNAME", "topic"), ("BUILD_SOURCEVERSION", "fedcba98"), ("TRAVIS", "true"), ("TRAVIS_BRANCH", "topic"), ("TRAVIS_TAG", "v9.9.9"),
+            ("CIRCLECI", "true"), ("CIRCLE_BRANCH", "topic"), ("CIRCLE_TAG", "v9.9.9"), ("BITBUCKET_BRANCH", "topic"), ("BITBUCKET_TAG", "v9.9.9"), ("BUILDKITE_BRANCH", "topic"), ("DRONE_BRANCH", "topic"), ("APPVEYOR_REPO_BRANCH", "topic"),
+            ("SEMAPHORE_GIT_BRANCH", "topic"), ("VERSION", "9.9.9"), ("ZERV_VERSION", "9.9.9"), ("PACKAGE_VERSION", "9.9.9"), ("SETUPTOOLS_SCM_PRETEND_VERSION", "9.9.9"), ("ZERV_BRANCH", "topic"), ("ZERV_SOURCE", "none"), ("ZERV_OUTPUT_FORMAT", "pep440")],
+        _ => vec![],
+    }
+}
+
+fn run_env(job: &Job, tz: &str, lc: &str, cwd: &Path, profile: usize, now: u64) -> proc::Out {
     let nows = now.to_string();
     let mut env: Vec<(&str, &str)> = vec![("TZ", tz), ("LC_ALL", lc), ("LANG", lc), ("ZERV_VERIF_NOW", &nows)];
-    if extra { env.extend([("COLUMNS", "1"), ("RUST_BACKTRACE", "1"), ("NO_COLOR", "1"), ("HOME", ""), ("TERM", "dumb"), ("LANGUAGE", "de:fr"), ("SOURCE_DATE_EPOCH", "1"), ("ZERV_TEST", "x"), ("CLICOLOR_FORCE", "1")]); }
+    env.extend(profile_env(profile));
     zv::run_bin(&job.args, job.stdin.as_deref(), &env, Some(cwd))
 }
 
@@ -135,14 +154,16 @@ fn main() {
     let st = jobs.par_iter().map(|job| {
         let mut st = Stats::default();
         st.inc("argument_vectors");
-        let reference = run_env(job, "UTC", "C", &job.cwds[0], false, now);
+        let reference = run_env(job, "UTC", "C", &job.cwds[0], 0, now);
         let case = json!({"kind":"env","args":job.args,"stdin":job.stdin});
         if let Some(e) = &job.expect {
             st.inc("independent_expectations");
             if reference.stdout_str() != *e { ctx.violation("output_differs_from_independent_expectation", format!("{} {}", job.label, job.args.join(" ")), case.clone(), format!("stdout {:?}, expected {:?} (UTC calendar / zero-keyed SipHash)", reference.stdout_str(), e)); }
         }
-        for tz in &tzs { for lc in &lcs { for cwd in &job.cwds { for extra in [false, true] { for rep in 0..repeats {
-            if *tz == "UTC" && *lc == "C" && !extra && rep == 0 && cwd == &job.cwds[0] { continue; }
+        for tz in &tzs { for lc in &lcs { for cwd in &job.cwds { for extra in 0..PROFILES { for rep in 0..repeats {
+            if *tz == "UTC" && *lc == "C" && extra == 0 && rep == 0 && cwd == &job.cwds[0] { continue; }
+            // the two CI profiles are crossed with every cwd; with time zone, locale and repetition in the thorough tier only
+            if quick && extra >= 2 && !(*tz == tzs[0] && *lc == lcs[0] && rep == 0) { continue; }
             // quick tier: the repetition dimension (run-to-run nondeterminism) is crossed with cwd and extra environment
             // only, under the first time zone and the first two locales
             if quick && rep > 0 && !(*tz == tzs[0] && (*lc == lcs[0] || *lc == lcs[1])) { continue; }
@@ -156,7 +177,7 @@ fn main() {
         }}}}}
         // second clock value: identical unless the input is clock dependent; then only timestamp-derived text may differ
         st.inc("second_clock_runs");
-        let o2 = run_env(job, "Pacific/Kiritimati", "C", &job.cwds[0], false, now2);
+        let o2 = run_env(job, "Pacific/Kiritimati", "C", &job.cwds[0], 0, now2);
         if !job.clock_dependent {
             if o2 != reference { ctx.violation("output_depends_on_wall_clock", format!("{} {}", job.label, job.args.join(" ")), case.clone(), format!("clock {now}: {:?}; clock {now2}: {:?}", truncate(&reference.stdout_str(), 120), truncate(&o2.stdout_str(), 120))); }
         } else {
@@ -257,9 +278,9 @@ fn main() {
     cov.evaluations = cov.transitions + jobs.len() as u64;
     cov.traces_validated = cov.evaluations;
     cov.distinct_nontrivial = jobs.len() as u64;
-    cov.rule = format!("{} argument vectors (presets x clean/ahead/dirty x both formats at timestamps straddling UTC midnight, templates with format_timestamp/hash/hash_int, schema-ron ts() components, current_timestamp, flow branch ids, stdin documents with non-ASCII text, render/check, 3 real git repositories whose HEAD times straddle UTC midnight incl. a dirty one) x the full product TZ{tzs:?} x LC_ALL{lcs:?} x 3 working directories x extra environment on/off x {repeats} repeats, every run a separate process with the clock pinned by the LD_PRELOAD seam; all (status, stdout, stderr) must equal the (UTC, C) reference; independent expectations from R-CAL and R-SIP where computable; a second clock value must change nothing for clock-independent inputs and only timestamp-derived text otherwise; relative -C / in-repo cwd equal absolute -C. non-trivial = argument vectors", jobs.len());
+    cov.rule = format!("{} argument vectors (presets x clean/ahead/dirty x both formats at timestamps straddling UTC midnight, templates with format_timestamp/hash/hash_int, schema-ron ts() components, current_timestamp, flow branch ids, stdin documents with non-ASCII text, render/check, 3 real git repositories whose HEAD times straddle UTC midnight incl. a dirty one) x the full product TZ{tzs:?} x LC_ALL{lcs:?} x 3 working directories x 4 environment profiles (none; terminal/tooling variables; the variables of a GitHub Actions branch build; the branch / tag / commit / build-number / version-override variables of nine other CI systems and packaging tools - in the quick tier the two CI profiles are crossed with the working directories only) x {repeats} repeats, every run a separate process with the clock pinned by the LD_PRELOAD seam; all (status, stdout, stderr) must equal the (UTC, C) reference; independent expectations from R-CAL and R-SIP where computable; a second clock value must change nothing for clock-independent inputs and only timestamp-derived text otherwise; relative -C / in-repo cwd equal absolute -C. non-trivial = argument vectors", jobs.len());
     cov.exhaustive = true;
-    cov.samples = vec![json!(jobs[3].args), json!(jobs[jobs.len() - 1].args), json!({"TZ":"Pacific/Kiritimati","LC_ALL":"tr_TR.UTF-8","cwd":"/","extra_env":true})];
+    cov.samples = vec![json!(jobs[3].args), json!(jobs[jobs.len() - 1].args), json!({"TZ":"Pacific/Kiritimati","LC_ALL":"tr_TR.UTF-8","cwd":"/","extra_env":1})];
     cov.set("clause_counts", all.to_json());
     cov.assumptions = vec!["independence is shown for the environment dimensions the property names (TZ, locale, cwd, unrelated variables, repetition, process identity); the wall clock is owned by the LD_PRELOAD seam".into(), "R-CAL and R-SIP".into()];
     finish(&ctx, cov);
